@@ -106,11 +106,16 @@ def repo_root_for(q, workdir):
 
 
 def cc_args(q, root):
-    a = ["-I", os.path.join(root, "include"), "-I", root, "-I", HARNESS, "-I", os.path.join(VERIF, "vt"),
+    a = []
+    for f in q.cc_flags:
+        pass
+    if "harness/shim" in q.cc_flags:
+        a += ["-I", os.path.join(HARNESS, "shim")]
+    a += ["-I", os.path.join(root, "include"), "-I", root, "-I", HARNESS, "-I", os.path.join(VERIF, "vt"),
          "-D__NO_CTYPE", "-D" + GUARD, "-DVT_ENTRY=" + q.entry]
     for k, v in q.defines.items():
         a.append("-D%s" % k if v is None else "-D%s=%s" % (k, v))
-    a += q.cc_flags
+    a += [f for f in q.cc_flags if f not in ("-I", "harness/shim")]
     return a
 
 
@@ -155,7 +160,7 @@ def build(q, workdir):
     if q.gen:
         srcs += q.gen(root, workdir)
     binary = os.path.join(workdir, "h.goto")
-    cmd = ["goto-cc", "-o", binary] + cc_args(q, root) + srcs
+    cmd = ["goto-cc", "-o", binary, "-I", workdir] + cc_args(q, root) + srcs
     r = run_proc(cmd, 300, 8, workdir)
     if r["rc"] != 0:
         return None, root, "goto-cc failed: " + (r["err"] + r["out"])[-3000:]
